@@ -43,6 +43,17 @@ def _check_yule_walker(ctx, filt, r, p, tag):
   return a
 
 
+def _det(M):
+  """determinant by cofactor expansion (independent of the code under test; sizes <= 5)"""
+  if len(M) == 1: return M[0][0]
+  acc = 0
+  for j in range(len(M)):
+    minor = [row[:j] + row[j + 1:] for row in M[1:]]
+    term = M[0][j] * _det(minor)
+    acc = acc + term if j % 2 == 0 else acc - term
+  return acc
+
+
 def h_levinson(ctx, cfg):
   from audiolazy.lazy_lpc import levinson_durbin, ParCorError
   n = cfg["n"]                               # len(r)
@@ -56,6 +67,14 @@ def h_levinson(ctx, cfg):
     filt = levinson_durbin(mine) if order is None else levinson_durbin(mine, order)
   except ZeroDivisionError as e:
     ctx.prove(isinstance(e, ParCorError), "division-by-zero-is-reported-as-ParCorError", type(e).__name__)
+    # the recursion divides by the prediction errors E_0 .. E_{p-1} only; E_m = det T_{m+1} / det T_m with T_k the k x k
+    # Toeplitz matrix of the lags, so a refusal is legitimate exactly when a leading minor det T_1 .. det T_p vanishes
+    # (a vanishing FINAL error E_p is a perfectly good answer, not a division by zero)
+    pp = n - 1 if order is None else order
+    R_ = lambda k: r[abs(k)] if abs(k) < len(r) else 0
+    minors = [_det([[R_(i - j) for j in range(k)] for i in range(k)]) for k in range(1, pp + 1)]
+    ctx.prove(Or(*[ctx.eq(d, 0) for d in minors]) if minors else False, "refuses-only-when-the-recursion-divides-by-zero",
+              "ParCorError although no prediction error E_0..E_%d vanishes" % (pp - 1))
     ctx.exclude("recursion divides by zero")
   p = n - 1 if order is None else order
   _check_yule_walker(ctx, filt, r, p, "levinson")
